@@ -13,6 +13,7 @@ package main
 
 import (
 	"fmt"
+	"io"
 	"os"
 	"os/exec"
 	"path/filepath"
@@ -89,9 +90,22 @@ func main() {
 	}
 	progress := filepath.Join(ev.ScratchDir(), "c14-progress.log")
 	os.Setenv("C14_PROGRESS", progress)
-	code := emit.ExecHarness(bin, os.Args[1:]...)
+	// the monitor runs as a child with its stderr kept: a fatal error inside
+	// the runtime under test (e.g. "concurrent map read and map write") cannot
+	// be recovered in-process and has to be attributed from the outside
+	var errBuf tailBuffer
+	cmd := exec.Command(bin, os.Args[1:]...)
+	cmd.Stdout, cmd.Stderr = os.Stdout, io.MultiWriter(os.Stderr, &errBuf)
+	cmd.Env = os.Environ()
+	code := 0
+	if err := cmd.Run(); err != nil {
+		code = 2
+		if ee, ok := err.(*exec.ExitError); ok {
+			code = ee.ExitCode()
+		}
+	}
 	if code != 0 && code != 1 && code != 3 {
-		code = crashed(bin, tier, progress, code)
+		code = crashed(bin, tier, progress, code, errBuf.String())
 	}
 	if code == 0 && raceCode == 1 {
 		fmt.Println("VIOLATION property=C14 only the -race sample run showed a violation (see [race sample] lines)")
@@ -104,7 +118,65 @@ func main() {
 // of the runtime under test takes the whole process down): every sequence that
 // was running is re-run alone; one that kills the process again on its own is
 // reported as a violation with the stack as witness.
-func crashed(bin, tier, progress string, code int) int {
+// tailBuffer keeps the first 256 KiB written to it.
+type tailBuffer struct{ b []byte }
+
+func (t *tailBuffer) Write(p []byte) (int, error) {
+	if room := 256*1024 - len(t.b); room > 0 {
+		if len(p) < room {
+			room = len(p)
+		}
+		t.b = append(t.b, p[:room]...)
+	}
+	return len(p), nil
+}
+func (t *tailBuffer) String() string { return string(t.b) }
+
+// crashHead extracts the fatal error / panic and the stack of the goroutine it
+// happened in; inRuntime tells whether that stack runs through the library
+// under test, fn is the innermost library function on it.
+func crashHead(text string) (head string, inRuntime bool, fn string) {
+	i := strings.Index(text, "fatal error:")
+	if j := strings.Index(text, "panic:"); i < 0 || (j >= 0 && j < i) {
+		i = j
+	}
+	if i < 0 {
+		return "", false, ""
+	}
+	lines := strings.Split(text[i:], "\n")
+	// the first goroutine block after the message is the faulting one
+	end, seenG := len(lines), false
+	for k, l := range lines {
+		if strings.HasPrefix(l, "goroutine ") {
+			if seenG {
+				end = k
+				break
+			}
+			seenG = true
+		}
+	}
+	if end > 60 {
+		end = 60
+	}
+	for _, l := range lines[:end] {
+		if k := strings.Index(l, "github.com/Workiva/frugal/lib/go."); k >= 0 && !strings.HasPrefix(l, "\t") {
+			inRuntime = true
+			if fn == "" {
+				fn = l[k+len("github.com/Workiva/frugal/lib/go."):]
+				if p := strings.Index(fn, "("); p > 0 && !strings.HasPrefix(fn, "(") {
+					fn = fn[:p]
+				} else if strings.HasPrefix(fn, "(") {
+					if q := strings.Index(fn[1:], "("); q > 0 {
+						fn = fn[:q+1]
+					}
+				}
+			}
+		}
+	}
+	return strings.Join(lines[:end], "\n"), inRuntime, fn
+}
+
+func crashed(bin, tier, progress string, code int, stderr string) int {
 	type cand struct{ id, leg, proto, mode string }
 	open := map[string]cand{}
 	var order []string
@@ -124,6 +196,24 @@ func crashed(bin, tier, progress string, code int) int {
 	run := ev.New("C14", tier, "exploration")
 	run.Rule("fallback evidence written by the driver: the monitor process died; the sequences running at that moment were re-run one at a time")
 	found := false
+	// the crash of the full run itself: if the faulting goroutine was inside the
+	// runtime under test, that is the violation - whether or not a single
+	// sequence reproduces it (a data race between two requests need not)
+	if head, inRuntime, fn := crashHead(stderr); inRuntime {
+		var running []string
+		for _, id := range order {
+			if c, ok := open[id]; ok {
+				running = append(running, fmt.Sprintf("%s (%s/%s %s)", c.id, c.leg, c.proto, c.mode))
+			}
+		}
+		first := strings.SplitN(head, "\n", 2)[0]
+		run.Eval(len(running) + 1)
+		run.Distinct("crash:" + fn)
+		run.Distinct("crash-first-line:" + first)
+		found = true
+		run.Violation("C14:server-crashed:"+fn, "the process serving the requests died inside the runtime under test: "+first+" - no request in flight on any connection is answered any more",
+			map[string]interface{}{"stack_of_the_faulting_goroutine": head, "sequences_in_flight": running, "regenerate": "VERIF_SEED=<seed> ./check C14 " + tier + " (sequence ids as listed; --seq <id> runs one alone)"})
+	}
 	for _, id := range order {
 		c, ok := open[id]
 		if !ok {
